@@ -7,6 +7,10 @@
          parameters in the order recovered (by the model's decoder) from the implementation's bytes.
     tth encsz <L>            => err | ok <size field> <bytes written>
          Encode of {StrInfo: {"k": L zero bytes}} into a counting writer (sizes beyond memory)
+    tth isstream <hex>       => true | false         IsStreaming
+    tth istth <hex>          => true | false | PANIC <class>   IsTTHeader (no length check of its own)
+    tth wstr <hex>           => ok <n> <bytes hex>   WriteString into a bytes writer, flushed
+    tth wu32 <n>             => ok <bytes hex> <Bytes2Uint32NoCheck> <Bytes2Uint16NoCheck>   WriteUint32 + read back
     tth dec <hex>            => decode result       bytes reader with cap = len
     tth decs <hex> <src>     => decode result       src = b<cap> | reader script
          decode result = ok <flags> <seq> <proto> <hl> <pl> <int> <str> <readlen> | err <e> <readlen> | PANIC <class>
@@ -264,6 +268,55 @@ def handleTth (args : List String) (impl : String) : String × String :=
           else "ok"
         | "PANIC" :: _ => "bad:C06:panic"
         | _ => "bad:protocol"
+      (model, verdict)
+    | none => ("bad-op", "na")
+  | ["tth", "isstream", hex] =>
+    match parseHex hex with
+    | some b =>
+      let model := match isStreaming b with
+        | .ok true => "true" | .ok false => "false" | .panic why => "PANIC " ++ why | _ => "?"
+      let want := if Frame.streaming b then "true" else "false"
+      (model, if res == [want] then "ok" else "bad:C06:isstreaming")
+    | none => ("bad-op", "na")
+  | ["tth", "istth", hex] =>
+    match parseHex hex with
+    | some b =>
+      let model := match isTTHeader b with
+        | .ok true => "true" | .ok false => "false" | .panic why => "PANIC " ++ why | _ => "?"
+      -- IsTTHeader has no length check of its own: below 8 bytes the statement says nothing
+      let verdict :=
+        if b.length < 8 then "na"
+        else if res == [if rd16 (b.drop 4) == 0x1000 then "true" else "false"] then "ok" else "bad:C06:istth"
+      (model, verdict)
+    | none => ("bad-op", "na")
+  | ["tth", "wstr", hex] =>
+    match parseHex hex with
+    | some sb =>
+      let w0 : W := { items := [], n := 0, broken := false, dirt := fun _ _ => 0 }
+      let model := match writeStr4 w0 sb with
+        | .ok r => s!"ok {r.1} {toHex r.2.bytes}"
+        | .err _ => "err" | .panic why => "PANIC " ++ why | .oob => "OOB"
+      let verdict := match res with
+        | ["ok", n, h] =>
+          if n.toNat? == some (sb.length + 4) && parseHex h == some (Frame.str4 sb) then "ok" else "bad:C06:wstr"
+        | _ => "bad:C06:wstr"
+      (model, verdict)
+    | none => ("bad-op", "na")
+  | ["tth", "wu32", n] =>
+    match n.toNat? with
+    | some v =>
+      if v ≥ 4294967296 then ("bad-op", "na") else
+      let w0 : W := { items := [], n := 0, broken := false, dirt := fun _ _ => 0 }
+      let rd (f : Bytes → DOut Nat) (b : Bytes) : String := match f b with
+        | .ok x => toString x | .panic why => "PANIC-" ++ why | _ => "?"
+      let model := match writeU32 w0 v with
+        | .ok w => s!"ok {toHex w.bytes} {rd bytes2Uint32NoCheck w.bytes} {rd bytes2Uint16NoCheck w.bytes}"
+        | .err _ => "err" | .panic why => "PANIC " ++ why | .oob => "OOB"
+      let verdict := match res with
+        | ["ok", h, a, b] =>
+          if parseHex h == some (be32 v) && a.toNat? == some v && b.toNat? == some (v / 65536) then "ok"
+          else "bad:C06:wstr"
+        | _ => "bad:C06:wstr"
       (model, verdict)
     | none => ("bad-op", "na")
   | ["tth", "dec", hex] =>
